@@ -705,6 +705,8 @@ def replay_plan(plan, stats=None):
                           'exc_type': err['type'] if isinstance(err, dict) else None,
                           'exc_function': err['function'] if isinstance(err, dict) else None}}
     world._pre_bytes = pre
+    if not plan.get('ref_clock_reads'):
+        plan = dict(plan, ref_clock_reads=out['clock_reads'])  # older replay files: liveness budget from this run
     return run_history(plan, out['results'], pre, stats)
 
 
